@@ -15,6 +15,11 @@ reaches whoever called `set_callback()`).
     poolRunLogsExcOpaque    : every logging handler of ThreadPool uses the caught exception opaquely
     futNotifyLogsExcOpaque  : every logging handler of FutureResult uses the caught exception opaquely
 
+Both facts also require that the handler converts NOTHING to a string itself (`eager_conversions`: f-string, `%`,
+`.format()`, repr(), str(), format(), ascii() - also in a helper of the class called from the handler): the name of the
+failing task handed to the logger (`getattr(method, "__name__", method)`) is application data too - a callable object
+or a functools.partial without `__name__` whose `__repr__` / `__str__` raise - and must be formatted by the logger.
+
 A helper method of the same class that is handed the exception (`self.__log_failure(method, ex)`) is followed (two
 levels); local aliases (`err = ex`) are followed; `none` when the class has no handler that logs.
 """
@@ -116,6 +121,32 @@ def opaque_uses(stmts, names, methods, logger_names, depth=0):
     return True
 
 
+EAGER_BUILTINS = ("repr", "str", "format", "ascii", "print")
+
+
+def eager_conversions(stmts):
+    """
+    String conversions evaluated by the statements themselves (not by the logger): f-strings, `"..." % x`,
+    `"...".format(x)` / `x.format(...)`, repr() / str() / format() / ascii().  In a handler that logs, the NAME of the failing
+    task is application data as well (a callable object or a functools.partial without `__name__`: its `__repr__` /
+    `__str__` may raise): it must reach the logger as a lazy argument, like the exception.
+    """
+    found = []
+    for s in stmts:
+        for n in ast.walk(s):
+            if isinstance(n, ast.JoinedStr) and any(isinstance(v, ast.FormattedValue) for v in n.values):
+                found.append("f-string")
+            elif isinstance(n, ast.BinOp) and isinstance(n.op, ast.Mod) and (
+                    isinstance(n.left, ast.JoinedStr) or (isinstance(n.left, ast.Constant) and isinstance(n.left.value, str))):
+                found.append("%")
+            elif isinstance(n, ast.Call) and isinstance(n.func, ast.Name) and n.func.id in EAGER_BUILTINS:
+                found.append(n.func.id + "()")
+            elif isinstance(n, ast.Call) and isinstance(n.func, ast.Attribute) and n.func.attr in ("format", "format_map",
+                                                                                                     "__repr__", "__str__", "__format__"):
+                found.append("." + n.func.attr + "()")
+    return found
+
+
 def _class_methods(cls):
     return {n.name: n for n in cls.body if isinstance(n, ast.FunctionDef)}
 
@@ -143,6 +174,15 @@ def logging_handlers_opaque(cls):
                 if not (direct or via_helper):
                     continue
                 found = True
+                # nothing in the handler (or in the helper of the class it calls) converts anything to a string itself
+                scanned = list(h.body)
+                for c in calls:
+                    if isinstance(c.func, ast.Attribute) and isinstance(c.func.value, ast.Name) and c.func.value.id == "self":
+                        helper = methods.get(c.func.attr)
+                        if helper is not None:
+                            scanned += helper.body
+                if eager_conversions(scanned):
+                    ok = False
                 if h.name is None:
                     continue   # nothing bound: nothing of the exception can be evaluated by name
                 ok = ok and opaque_uses(h.body, {h.name}, methods, lnames)
@@ -156,7 +196,8 @@ def facts(src):
         "poolRunLogsExcOpaque", "Bool", None if pool is None else lean_bool(pool), ["C09"],
         "ThreadPool: the handlers that log a caught exception (__run around future.execute) hand the exception object "
         "to the logger as a lazy argument / exc_info and evaluate nothing of it (no f-string, .format, %, str, repr, "
-        ".args, truth value, ==): an exception object whose special methods raise cannot make the handler raise",
+        ".args, truth value, ==) nor of anything else (the name of the task goes to the logger unformatted: no repr() / str() / "
+        "format()): neither an exception object nor a task callable whose special methods raise can make the handler raise",
         json_value=pool))
     fut = logging_handlers_opaque(src.klass("threadpool", "FutureResult"))
     out.append(Fact(
